@@ -115,6 +115,48 @@ def run(ctx):
                f'hints built from the {fac} factory are checkable (a sign of that name is supported)', fac in have,
                f'no supported sign named {fac}')
     ctx.floor('C20.R4', len(facs), 8, 'builtin collection factories')
+    # arity: the item inferer subscripts a factory with key and value hints iff the builtin type is a Mapping
+    # (Counter: key only), with one item hint otherwise; that number must be one the type-checker accepts for
+    # the sign of that name (folded HINT_SIGN_ORIGIN_ISINSTANCEABLE_TO_ARGS_LEN_RANGE)
+    rng = ctx.folder.const('beartype._data.hint.sign.datahintsignmap', 'HINT_SIGN_ORIGIN_ISINSTANCEABLE_TO_ARGS_LEN_RANGE')
+    by_name = {(k.args[0] if getattr(k, 'args', None) else str(k)): v for k, v in rng.items()}
+    MAPPING_TYPES = {'dict', 'ChainMapType', 'CounterType', 'defaultdict', 'OrderedDict', 'DefaultDictType', 'OrderedDictType'}
+    for cls_name, fac in sorted(facs.items()):
+        r = by_name.get(fac)
+        if r is None:
+            continue
+        n_args = (1 if fac == 'Counter' else 2) if cls_name in MAPPING_TYPES else (2 if fac == 'Tuple' else 1)
+        ok = n_args in r
+        ctx.ob('C20.R4', f'builtin-factory-arity:{cls_name}->{fac}', bm.where(bm.tree.body[0]),
+               f'{fac} is subscripted by the inferer with a number of child hints the type-checker accepts', ok,
+               f'the inferer subscripts {fac} with {n_args} child hint(s) for {cls_name} objects ({cls_name} is '
+               f'{"" if cls_name in MAPPING_TYPES else "not "}a Mapping); the checker requires {list(r)}')
+
+    # ---- R5 ----------------------------------------------------------------------
+    ctx.rule('C20.R5', 'under the On strategy the inferred item hint covers every item: each loop over the object (or '
+             'its items()) in the item inferers calls infer_hint on the loop variable directly in the loop body — not '
+             'under a condition — has no continue / break, and adds the result to the aggregate that becomes the union')
+    im2 = repo.mod(ITEMS)
+    n5 = 0
+    for fname in ('_infer_hint_reiterable_items', '_infer_hint_mapping_items'):
+        fn = im2.defs.get(fname)
+        ctx.require(fn is not None, f'anchor vanished: {fname}')
+        p0 = fn.args.args[0].arg
+        for lp in [x for x in ast.walk(fn) if isinstance(x, ast.For) and norm(x.iter) in (p0, f'{p0}.items()')]:
+            n5 += 1
+            tv = [t.id for t in ast.walk(lp.target) if isinstance(t, ast.Name)]
+            exits = [x for x in ast.walk(lp) if isinstance(x, (ast.Continue, ast.Break))]
+            direct = [st for st in lp.body if isinstance(st, ast.Assign) and isinstance(st.value, ast.Call)
+                      and dotted(st.value.func) == 'infer_hint' and any(k.arg == 'obj' and dotted(k.value) in tv for k in st.value.keywords)]
+            covered = {dotted(k.value) for st in direct for k in st.value.keywords if k.arg == 'obj'}
+            results = {dotted(st.targets[0]) for st in direct}
+            added = {dotted(c.args[0]) for st in lp.body if isinstance(st, ast.Expr) and isinstance(st.value, ast.Call)
+                     and isinstance(st.value.func, ast.Attribute) and st.value.func.attr in ('add', 'append') for c in [st.value] if c.args}
+            ok = not exits and set(tv) <= covered and results <= added
+            ctx.ob('C20.R5', f'{fname}:loop-over:{norm(lp.iter)}#{n5}:covers-every-item', im2.where(lp),
+                   'every item is inferred and contributes to the union', ok,
+                   f'exits: {[norm(x) for x in exits]}; inferred directly: {sorted(covered)} of {tv}; aggregated: {sorted(added)}')
+    ctx.floor('C20.R5', n5, 3, 'item loops of the inferers')
 
 
 def _derived_from(fn, root: str) -> set:
